@@ -30,8 +30,15 @@ namespace tapkee_internal
 template <class P, class DistanceCallback> class CoverTreeWrapper
 {
   public:
-    CoverTreeWrapper() : base(COVERTREE_BASE), il2(1. / log(base)), internal_k(1)
+    CoverTreeWrapper() : base(COVERTREE_BASE), il2(1. / log(base)), internal_k(1), max_node_scale(0)
     {
+    }
+
+    /** The largest scale assigned to an inner node by batch_create. Queries keep one cover set
+     * per scale in 101 slots and scale 100 marks leaves, so only scales below 100 are supported. */
+    int get_max_node_scale() const
+    {
+        return max_node_scale;
     }
 
     void split(v_array<ds_node<P>>& point_set, v_array<ds_node<P>>& far_set, int max_scale);
@@ -120,6 +127,7 @@ template <class P, class DistanceCallback> class CoverTreeWrapper
     ScalarType base;
     ScalarType il2;
     int internal_k;
+    int max_node_scale;
 };
 
 template <class P> ScalarType max_set(v_array<ds_node<P>>& v)
@@ -263,6 +271,8 @@ node<P> CoverTreeWrapper<P, DistanceCallback>::batch_insert(DistanceCallback& dc
                 push(stack, point_set);
                 point_set = far;
                 n.scale = top_scale - max_scale;
+                if (top_scale - max_scale > max_node_scale)
+                    max_node_scale = top_scale - max_scale;
                 n.max_dist = max_set(consumed_set);
                 alloc_array(children, size(children));
                 n.num_children = size(children);
